@@ -263,6 +263,50 @@ func c16(c *Ctx) {
 			g.PostDominatedBy(installV, g.Exit, func(x *cfgx.Vertex) bool { return x.ID == revV })
 		r.Check(okAfter, "C16.V3", fi.Name(), "revision set after every install", c.P.Pos(fi.Node().Pos()), "Config.Revision = … follows Config = … on every path",
 			"after installing the parsed configuration the revision is not (always) set from the entry: TOML cannot carry the revision, so it would fall back to 0 or stay stale")
+		// values derived from the configuration in this arm are derived from the NEW one: every read of <server>.Config
+		// that follows the parse is dominated by the install
+		if installV >= 0 {
+			cfgField := c.P.Field("ircserver", "IRCServer", "Config")
+			var parseV = -1
+			for _, v := range g.Nodes() {
+				if v.Node == nil {
+					continue
+				}
+				for _, call := range astx.Calls(v.Node, false) {
+					if fn := astx.Callee(info, call); fn != nil && isFunc(fn, "config", "FromString") {
+						parseV = v.ID
+					}
+				}
+			}
+			if parseV >= 0 {
+				after := g.Reach(parseV, nil, nil)
+				for _, v := range g.Nodes() {
+					if v.Node == nil || !after[v.ID] || v.ID == installV {
+						continue
+					}
+					stale := ""
+					ast.Inspect(v.Node, func(n ast.Node) bool {
+						if as, ok := n.(*ast.AssignStmt); ok {
+							// only right-hand sides are reads
+							for _, rhs := range as.Rhs {
+								ast.Inspect(rhs, func(m ast.Node) bool {
+									if se, ok := m.(*ast.SelectorExpr); ok && astx.FieldSel(info, se) == cfgField && cfgField != nil {
+										stale = astx.Str(rhs)
+									}
+									return true
+								})
+							}
+							return false
+						}
+						return true
+					})
+					if stale != "" && !g.DominatedBy(v.ID, func(x *cfgx.Vertex) bool { return x.ID == installV }) {
+						r.Fail("C16.V3", fi.Name(), "value derived from the configuration before it is installed", c.P.Pos(v.Node.Pos()),
+							"the Config arm reads "+stale+" on a path on which the new configuration has not been installed yet: the derived value (e.g. the cached session expiration that sets the compaction horizon) lags one revision behind")
+					}
+				}
+			}
+		}
 		// cached expiration refreshed
 		sed := c.P.Field("main", "FSM", "sessionExpirationDur")
 		se := c.P.Field("config", "Network", "SessionExpiration")
